@@ -936,6 +936,155 @@ func c12GenLive(t *rapid.T) c12Live {
 	return c
 }
 
+// Two advertising interfaces at once: each has its own Advertiser (its own listener goroutine in the daemon), both
+// share the Context, the Metrics and the logger, and each hears an RA from another router while the other is still
+// writing its report (writing a log line takes 0.1 ms here). Each interface must report exactly its own
+// inconsistencies under its own name.
+type c12Two struct {
+	Ours     [2]vRA `json:"ours"`
+	Theirs   [2]vRA `json:"theirs"`
+	OffsetNS int64  `json:"offset_ns"` // the second RA arrives this long after the first
+}
+
+type slowLog struct {
+	mu sync.Mutex
+	b  bytes.Buffer
+}
+
+func (l *slowLog) Write(p []byte) (int, error) {
+	time.Sleep(100 * time.Microsecond)
+	l.mu.Lock()
+	defer l.mu.Unlock()
+	return l.b.Write(p)
+}
+
+func c12TwoProp(t *testing.T, k *verifkit.Kit) func(c c12Two) error {
+	return func(c c12Two) error {
+		names := [2]string{"lan0", "lan1"}
+		var want [2][]c12Label
+		var drops [2]map[string]bool
+		total := 0
+		for i := range names {
+			w, unspec := c12Expected(c.Ours[i], c.Theirs[i])
+			want[i], drops[i] = w, map[string]bool{}
+			for _, u := range unspec {
+				drops[i][u] = true
+			}
+			if len(w) > 0 {
+				total++
+			}
+		}
+		k.Record(c, total == 2, fmt.Sprintf("two-interfaces:both-inconsistent=%v", total == 2))
+		var msgs [2]ndp.Message
+		for i := range names {
+			b, err := ndp.MarshalMessage(c.Theirs[i].ndp())
+			if err != nil {
+				return fmt.Errorf("verif: generated RA does not encode: %v", err)
+			}
+			if msgs[i], err = ndp.ParseMessage(b); err != nil {
+				return fmt.Errorf("verif: generated RA does not decode: %v", err)
+			}
+		}
+		var series map[string]metricslite.Series
+		var hooks [2]int
+		var herr [2]error
+		var pan any
+		func() {
+			defer func() { pan = recover() }()
+			// (on the real clock, not in a bubble: the two share one logger, whose mutex a sleeping writer holds - a
+			// goroutine waiting for a mutex is not "durably blocked", so a bubble's clock would never move. Nothing
+			// here is judged by time: whatever the interleaving, each interface must count its own labels.)
+			func() {
+				mem := metricslite.NewMemory()
+				st := system.TestState{Forwarding: true}
+				mm := NewMetrics(mem, "verif", time.Time{}, st, nil)
+				cctx := NewContext(log.New(&slowLog{}, "", 0), mm, st)
+				var wg sync.WaitGroup
+				for i, name := range names {
+					a := NewAdvertiser(cctx, c.Ours[i].iface(name), nil, nil, func() bool { return false })
+					a.OnInconsistentRA = func(o, th *ndp.RouterAdvertisement) { hooks[i]++ }
+					wg.Add(1)
+					go func() {
+						defer wg.Done()
+						if i == 1 {
+							time.Sleep(time.Duration(c.OffsetNS))
+						}
+						_, herr[i] = a.handle(msgs[i], netip.MustParseAddr("fe80::2"))
+					}()
+				}
+				wg.Wait()
+				series, _ = mm.Series()
+			}()
+		}()
+		if pan != nil {
+			return verifkit.Violf("panic", "panic: %v", pan)
+		}
+		for i, name := range names {
+			if herr[i] != nil {
+				return verifkit.Violf("C12/handle-error", "%s: handle returned %v", name, herr[i])
+			}
+			var counted []c12Label
+			for key, v := range series[advInconsistencies].Samples {
+				var l c12Label
+				mine := false
+				for _, kv := range strings.Split(key, ",") {
+					switch {
+					case strings.HasPrefix(kv, "details="):
+						l.Details = strings.TrimPrefix(kv, "details=")
+					case strings.HasPrefix(kv, "field="):
+						l.Field = strings.TrimPrefix(kv, "field=")
+					case kv == "interface="+name:
+						mine = true
+					}
+				}
+				for j := 0; mine && j < int(v); j++ {
+					counted = append(counted, l)
+				}
+			}
+			// (as sets: a received RA may repeat a prefix, see above)
+			set := func(ls []c12Label) string {
+				return strings.Join(slices.Compact(strings.Fields(c12Multiset(ls, drops[i]))), " ")
+			}
+			if g, w := set(counted), set(want[i]); g != w {
+				return verifkit.Violf("C12/two-interfaces/"+c12Diff(w, g), "%s (the two RAs arrive %v apart, a log line takes 0.1 ms): counted {%s}, its own inconsistencies are {%s}; the other interface's are {%s}",
+					name, time.Duration(c.OffsetNS), g, w, set(want[1-i]))
+			}
+			if len(drops[i]) == 0 && (hooks[i] > 0) != (len(want[i]) > 0) {
+				return verifkit.Violf("C12/two-interfaces/hook", "%s: hook fired %d times for %d expected inconsistencies", name, hooks[i], len(want[i]))
+			}
+		}
+		return nil
+	}
+}
+
+func c12GenTwo(t *rapid.T) c12Two {
+	var c c12Two
+	for i := range c.Ours {
+		c.Ours[i] = c12GenRA(t, false, c12Prefixes)
+		// theirs = ours with a few header edits: several inconsistencies, hence several log lines
+		b, _ := json.Marshal(c.Ours[i])
+		_ = json.Unmarshal(b, &c.Theirs[i])
+		for j, n := 0, rapid.IntRange(1, 4).Draw(t, "nedits"); j < n; j++ {
+			switch rapid.IntRange(0, 5).Draw(t, "edit") {
+			case 0:
+				c.Theirs[i].Hop = rapid.SampledFrom([]uint8{1, 64, 255}).Draw(t, "hop")
+			case 1:
+				c.Theirs[i].M = !c.Theirs[i].M
+			case 2:
+				c.Theirs[i].O = !c.Theirs[i].O
+			case 3:
+				c.Theirs[i].ReachMS = rapid.SampledFrom([]int64{1000, 30000, 1200}).Draw(t, "reach")
+			case 4:
+				c.Theirs[i].RetransMS = rapid.SampledFrom([]int64{1000, 5000, 500}).Draw(t, "retrans")
+			default:
+				c.Theirs[i] = c12GenRA(t, true, c12Prefixes)
+			}
+		}
+	}
+	c.OffsetNS = rapid.SampledFrom([]int64{0, 20000, 50000, 100000, 150000, 250000}).Draw(t, "offset")
+	return c
+}
+
 func TestVerif_C12(t *testing.T) {
 	k := verifkit.Start(t, "C12")
 	prop := c12Prop(k)
@@ -944,9 +1093,13 @@ func TestVerif_C12(t *testing.T) {
 		if strings.HasPrefix(sub, "live") {
 			return verifkit.Decode(raw, live)
 		}
+		if strings.HasPrefix(sub, "two-interfaces") {
+			return verifkit.Decode(raw, c12TwoProp(t, k))
+		}
 		return verifkit.Decode(raw, prop)
 	})
 	verifkit.Enumerate(k, t, "aspect-classes-singles-and-pairs", true, c12Aspects, prop)
 	verifkit.Rapid(k, t, "random-ra-pairs", k.N(6000, 2000000), c12Gen, prop)
 	verifkit.Rapid(k, t, "live-own-ra-follows-the-system", k.N(4000, 400000), c12GenLive, live)
+	verifkit.Rapid(k, t, "two-interfaces-at-once", k.N(1500, 150000), c12GenTwo, c12TwoProp(t, k))
 }
